@@ -68,10 +68,9 @@ func FmtDiffs(input string) ([]FmtDiff, error) {
 					NewText:  "",
 				})
 			}
-		} else if diff.FromLine > lastEnd+1 {
+		} else if diff.FromLine > lastEnd && lines.rangeLines(lastEnd, diff.FromLine) != "\n" {
 			// FromLine == LastEnd  means no gap
-			// FromLine == LastEnd + 1  is one line gap, OK
-			// FromLine > LastEnd + 1 should be one line
+			// FromLine > LastEnd  is a gap, which should be one empty line
 			out = append(out, FmtDiff{
 				FromLine: lastEnd,
 				ToLine:   diff.FromLine,
